@@ -426,3 +426,7 @@ def run(chk):
                                                  "children (exhaustive table on short paths; rule shared with C17)"), F)
     chk.guard("R02.9", "map-satisfiers", check_map_satisfiers, chk, F)
     chk.guard("R02.10", "lock-satisfiers", check_lock_satisfiers, chk, F)
+    # ... and the satisfier a PSBT is finalized with answers the same questions from the transaction (shared with C14)
+    from . import c14
+    chk.guard("R02.11", "psbt-locks", c14.check_locks, RuleAlias(chk, {"R14.1": "R02.11"}, "PsbtInputSatisfier::check_older / "
+              "check_after: a lock the transaction meets is found"), F)
